@@ -24,6 +24,15 @@ theorem fact_registration_timeout : Karp.Gen.Reapers.registrationTimeoutNs = 15 
 theorem fact_breaker_percent :
     Karp.Gen.Reapers.allowedUnhealthyPercent = 20 ∧ Karp.Gen.Reapers.unhealthyRoundUp = true := by decide
 
+/-- property text: "... and not when that cannot be established" — the collector's two list calls (NodeClaims,
+    `cloudProvider.List`) are each followed by an early return on the plain `err != nil`: no error type is
+    filtered out (`client.IgnoreNotFound`, `cloudprovider.IgnoreNodeClaimNotFoundError`, …) before the test.
+    `gcWith` ends the pass on `listClaimsFault` / `providerListFault` whatever the error (`GCErrFrame`); that is
+    the code's behaviour exactly as long as this holds. -/
+theorem fact_gc_list_guards :
+    Karp.Gen.Reapers.gcListGuards =
+      [("nodeclaimutils.ListManaged", "err != nil"), ("c.cloudProvider.List", "err != nil")] := by decide
+
 /-! ## Expiration -/
 
 /-- **C16_expiration** — a Delete is issued only when expiry is enabled and the clock has reached
@@ -176,6 +185,37 @@ theorem C16_gc_list_guards (flag : Bool) (i : GCIn)
     (h : i.listClaimsFault = true ∨ i.providerListFault = true) : (gcWith flag i).1 = [] := by
   unfold gcWith
   rcases h with h | h <;> simp [h]
+
+/-- **C16_gc_error_class_frame** — WHICH error a failing guarding read returned (kube API NotFound / Conflict /
+    Timeout / …, the provider's typed NodeClaimNotFoundError / InsufficientCapacityError / NodeClassNotReadyError,
+    bare, wrapped or joined, …) and whether a failing `cloudProvider.List` handed back a partial result next to
+    its error decides nothing: neither what the collector does nor what the specification permits. -/
+theorem C16_gc_error_class_frame (flag : Bool) (i : GCIn) (e : GCErrFrame) :
+    gcWith flag { i with errs := e } = gcWith flag i ∧
+    ∀ c, gcMayDelete { i with errs := e } c = gcMayDelete i c :=
+  ⟨rfl, fun _ => rfl⟩
+
+/-- **C16_gc_failed_list_is_not_an_empty_list** — for every error class (`i.errs` is arbitrary) and whatever the
+    provider would have listed: when `cloudProvider.List` (or the NodeClaim list) fails, the collector issues no
+    Delete and the specification permits none — "the provider no longer lists its instance" has not been
+    established. -/
+theorem C16_gc_failed_list_is_not_an_empty_list (flag : Bool) (i : GCIn)
+    (h : i.listClaimsFault = true ∨ i.providerListFault = true) :
+    (gcWith flag i).1 = [] ∧ (gcWith flag i).2 = true ∧ ∀ c, gcMayDelete i c = false := by
+  refine ⟨C16_gc_list_guards flag i h, ?_, ?_⟩
+  · unfold gcWith
+    rcases h with h | h <;> simp [h]
+  · intro c
+    unfold gcMayDelete providerLacks
+    rcases h with h | h <;> simp [h]
+
+/-- the specification is *tight* about it: with a failed provider List no set of Deletes but the empty one is
+    acceptable (so the driver's oracle rejects any Delete the real collector issues after such a failure) -/
+theorem C16_gc_spec_rejects_deletes_after_failed_list (i : GCIn) (d : String) (ds : List String)
+    (h : i.listClaimsFault = true ∨ i.providerListFault = true) : gcDeletesOk i (d :: ds) = false := by
+  have hno := (C16_gc_failed_list_is_not_an_empty_list true i h).2.2
+  unfold gcDeletesOk
+  simp [hno]
 
 /-- a NodeClaim whose only Node is Ready is never deleted when the lookup succeeds -/
 theorem C16_gc_ready_guard (flag : Bool) (i : GCIn) (c : Claim) (h : lookup i c = .one true) :
@@ -511,6 +551,15 @@ example : (gcWith true { gcWitnessLookup with lookupFault := [], nodes := [] }).
 example : gcDeletesOk { gcWitnessLookup with lookupFault := [], nodes := [] } ["nc-00"] = true := by decide
 /-- … and with the Node Ready and the lookup working: kept -/
 example : (gcWith false { gcWitnessLookup with lookupFault := [] }).1 = [] := by decide
+-- error classes: the provider List fails with a (wrapped) NodeClaimNotFoundError next to a partial result while
+-- the claim's Node is absent - nothing is deleted, the pass reports the error, the spec permits no Delete
+def gcWitnessListNotFound : GCIn :=
+  { gcWitnessLookup with
+    lookupFault := [], nodes := [], providerListFault := true,
+    errs := { providerList := "nodeclaim-notfound-wrapped", providerListPartial := true } }
+example : gcWith true gcWitnessListNotFound = ([], true) := by decide
+example : gcDeletesOk gcWitnessListNotFound ["nc-00"] = false := by decide
+example : (gcWith true { gcWitnessListNotFound with providerListFault := false }).1 = ["nc-00"] := by decide
 
 /-- the witness cluster with the lookup working and the Ready Node terminating (deletion timestamp set, still
     present): kept, and the specification forbids the Delete -/
